@@ -33,12 +33,21 @@ fn msg_def() -> StructDef {
 
 /// Builds a document around the given domain member list.
 pub fn build(members: Option<&[(String, Ty)]>, variant: &str, family: &str, seed: u64) -> Case {
+    build_ext(members, None, variant, family, seed)
+}
+
+/// `values_for`: the members the domain VALUE carries (default: one per declared member). Used for a document
+/// without a domain type whose domain value is filled in all the same, and for an ill-formed domain type whose
+/// value leaves out the offending members (either way the document is refused: the type decides).
+pub fn build_ext(members: Option<&[(String, Ty)]>, values_for: Option<&[(String, Ty)]>, variant: &str, family: &str, seed: u64) -> Case {
     let tape = crate::engine::Prng::new(seed).bytes(256);
     let mut u = U::new(&tape);
     let mut graph = TypeGraph { structs: vec![msg_def(), foo()] };
     let mut dom_vals: Vec<(String, Val)> = vec![];
     if let Some(ms) = members {
         graph.structs.push(StructDef { name: "EIP712Domain".into(), members: ms.to_vec() });
+    }
+    if let Some(ms) = values_for.or(members) {
         for (n, t) in ms {
             if dom_vals.iter().any(|(k, _)| k == n) {
                 continue; // a repeated name can only carry one JSON value
@@ -70,7 +79,7 @@ pub fn build(members: Option<&[(String, Ty)]>, variant: &str, family: &str, seed
         Val::Struct(f) => J::Obj(
             f.iter()
                 .map(|(n, v)| {
-                    let mut t = members.and_then(|ms| ms.iter().find(|(mn, _)| mn == n)).map(|(_, t)| t.clone()).unwrap_or(Ty::String);
+                    let mut t = values_for.or(members).and_then(|ms| ms.iter().find(|(mn, _)| mn == n)).map(|(_, t)| t.clone()).unwrap_or(Ty::String);
                     if matches!(&t, Ty::Struct(name) if graph.get(name).is_none()) {
                         t = standard_domain_fields().iter().find(|(sn, _)| sn == n).map(|(_, st)| st.clone()).unwrap_or(Ty::String);
                     }
@@ -276,11 +285,36 @@ fn enumerate(seed: u64) -> Vec<Case> {
             }
         }
     }
-    // (v) no EIP712Domain entry at all
+    // (v) no EIP712Domain entry at all: with an empty domain value, and with a domain value that carries the
+    // standard fields all the same (what libraries that derive the type from the value are given)
     for v in ["valid", "malformed-message"] {
         out.push(build(None, v, "no-domain-type", next()));
     }
+    for mask in 1u8..32 {
+        let vals: Vec<(String, Ty)> = (0..5).filter(|i| mask & (1 << i) != 0).map(|i| stdm[i].clone()).collect();
+        out.push(build_ext(None, Some(&vals), "valid", "no-domain-type", next()));
+    }
+    // (vii) ill-formed domain types whose VALUE leaves out the offending members and keeps the well-formed ones
+    let ill: Vec<Vec<(String, Ty)>> = out.iter().filter(|c| matches!(c.family.as_str(), "type-substitution" | "foreign-field")).filter_map(|c| c.members.clone()).step_by(3).collect();
+    for ms in ill {
+        let keep = well_formed_part(&ms);
+        if !keep.is_empty() && keep.len() < ms.len() {
+            out.push(build_ext(Some(&ms), Some(&keep), "valid", "value-omits-offending-members", next()));
+        }
+    }
     out
+}
+
+/// the members of a list that are standard (name, type) pairs, first occurrence each
+fn well_formed_part(ms: &[(String, Ty)]) -> Vec<(String, Ty)> {
+    let std = standard_domain_fields();
+    let mut keep: Vec<(String, Ty)> = vec![];
+    for (n, t) in ms {
+        if std.iter().any(|(sn, st)| sn == n && st == t) && !keep.iter().any(|(k, _)| k == n) {
+            keep.push((n.clone(), t.clone()));
+        }
+    }
+    keep
 }
 
 fn gen_mixture(tape: Vec<u8>) -> Case {
@@ -318,6 +352,12 @@ fn gen_mixture(tape: Vec<u8>) -> Case {
     }
     let variant = ["valid", "valid", "malformed-message", "primary-is-domain"][u.below(4)];
     let variant = if variant == "primary-is-domain" && ms.is_empty() { "valid" } else { variant };
+    if variant == "valid" && !domain_well_formed(&ms) && u.ratio(1, 3) {
+        let keep = well_formed_part(&ms);
+        if !keep.is_empty() && keep.len() < ms.len() {
+            return build_ext(Some(&ms), Some(&keep), "valid", "mixture", u.u64());
+        }
+    }
     build(Some(&ms), variant, "mixture", u.u64())
 }
 
@@ -369,7 +409,7 @@ fn judge_cli(c: &Case, cls: &mut Classifier) -> Verdict {
 }
 
 pub fn run(ctx: &mut Ctx) {
-    ctx.rule = "EIP712Domain member lists: (i) all 326 duplicate-free orderings of subsets of the five standard fields, each with a valid message, a malformed message and with EIP712Domain as primaryType; (ii) all 3905 sequences of length 1..5 over the five names with repetition; (iii) each of the 31 well-formed domains with one field's type replaced by each of 32 near-miss types (17 other EIP-712 types and 15 raw type strings such as uint, int, String, 'bytes32 ', uint0256); (iv) a foreign field (20 names, incl. names embedding type-string syntax such as 'name,string version') inserted at every position of each well-formed domain; (v) no EIP712Domain entry; (vi) generated mixtures. Domain values are generated to match the declared members so the domain type is the only variable. Oracle: truth table accepted <=> non-empty, standard (name,type) pairs, no repeats, standard relative order; accepted documents must hash to the reference domain separator/digest; refused ones are Err whatever the message is; a CLI sample runs `hash typeddata`, `hash typeddata --message-hash` (file and stdin) and `sign typeddata` on every well-formed domain and a stride of the ill-formed ones: all commands must apply the same rule (digests equal the reference / error exit with empty stdout). Non-trivial: all; distinct by document.".into();
+    ctx.rule = "EIP712Domain member lists: (i) all 326 duplicate-free orderings of subsets of the five standard fields, each with a valid message, a malformed message and with EIP712Domain as primaryType; (ii) all 3905 sequences of length 1..5 over the five names with repetition; (iii) each of the 31 well-formed domains with one field's type replaced by each of 32 near-miss types (17 other EIP-712 types and 15 raw type strings such as uint, int, String, 'bytes32 ', uint0256); (iv) a foreign field (20 names, incl. names embedding type-string syntax such as 'name,string version') inserted at every position of each well-formed domain; (v) no EIP712Domain entry, with an empty domain value and with each of the 31 standard-field selections as domain value; (vi) generated mixtures; (vii) ill-formed domain types whose value leaves out the offending members and keeps the well-formed ones. Otherwise domain values are generated to match the declared members so the domain type is the only variable. Oracle: truth table accepted <=> non-empty, standard (name,type) pairs, no repeats, standard relative order; accepted documents must hash to the reference domain separator/digest; refused ones are Err whatever the message is; a CLI sample runs `hash typeddata`, `hash typeddata --message-hash` (file and stdin) and `sign typeddata` on every well-formed domain and a stride of the ill-formed ones: all commands must apply the same rule (digests equal the reference / error exit with empty stdout). Non-trivial: all; distinct by document.".into();
     ctx.assumptions = vec![];
     ctx.replay_known_and_regressions(&replay);
     let cases = enumerate(ctx.seed);
@@ -380,7 +420,7 @@ pub fn run(ctx: &mut Ctx) {
     // CLI sample: every command that reads typed data must apply the same domain-type rule
     if crate::cli::global_cli().is_some() {
         let step = ctx.tier.pick(37, 5);
-        let sample: Vec<Case> = cases.iter().enumerate().filter(|(i, c)| i % step == 0 || (c.family == "orderings" && c.model.is_some() && c.variant == "valid")).map(|(_, c)| c.clone()).collect();
+        let sample: Vec<Case> = cases.iter().enumerate().filter(|(i, c)| i % step == 0 || c.family == "no-domain-type" || (c.family == "orderings" && c.model.is_some() && c.variant == "valid")).map(|(_, c)| c.clone()).collect();
         ctx.run_cases("cli", &sample, judge_cli);
         if ctx.cls.count("timed-out") > 0 {
             ctx.inconclusive("CLI watchdog expired");
